@@ -23,4 +23,5 @@ Inductive wtok :=
 
 (* outcome of one raw lexer step that stopped at a trie node *)
 Inductive outcome := OEnd | OErr | OTok (t : wtok) (len : nat).
-Record node := { edges : list (N * nat); at_end : outcome; at_other : outcome }.
+(* a trie node: the bytes leading to it, its outgoing edges, and the two observed outcomes *)
+Record node := { npath : list N; edges : list (N * nat); at_end : outcome; at_other : outcome }.
